@@ -40,7 +40,7 @@ class ConnPoolSpec(Spec):
                 'thorough': [('core', 48), ('nofault', 24), ('disc_fail', 8), ('cancel', 8), ('prune_busy', 8),
                              ('tight', 64), ('tight_nofault', 32), ('big', 1)],
             }
-            self.runs = {'quick': 400000, 'thorough': 6000000}
+            self.runs = {'quick': 600000, 'thorough': 6000000}
             self.rule = ('same world as C15; oracle = every acquire() resolves: violation iff an acquire is pending while the '
                          'environment is quiescent (faults stopped, no connect/disconnect in flight, every holder released, no '
                          'arrivals left) and either the loop is idle or `bound` simulated seconds pass without any request '
